@@ -61,6 +61,7 @@ PPL::BHRZ03_Certificate::BHRZ03_Certificate(const Polyhedron& ph)
   PPL_ASSERT(lin_space_dim == 0);
   PPL_ASSERT(num_points == 0);
   const Generator_System& gs = ph.minimized_generators();
+  bool has_rays = false;
   for (Generator_System::const_iterator i = gs.begin(),
          gs_end = gs.end(); i != gs_end; ++i) {
     switch (i->type()) {
@@ -69,16 +70,26 @@ PPL::BHRZ03_Certificate::BHRZ03_Certificate(const Polyhedron& ph)
       ++num_points;
       break;
     case Generator::RAY:
-      // For each i such that 0 <= j < space_dim,
-      // `num_rays_null_coord[j]' will be the number of rays
-      // having exactly `j' coordinates equal to 0.
-      ++num_rays_null_coord[i->expression().num_zeroes(1, space_dim + 1)];
+      has_rays = true;
       break;
     case Generator::LINE:
       // Since the generator systems is minimized, the dimension of
       // the lineality space is equal to the number of lines.
       ++lin_space_dim;
       break;
+    }
+  }
+  if (has_rays) {
+    // For each i such that 0 <= j < space_dim,
+    // `num_rays_null_coord[j]' will be the number of rays
+    // having exactly `j' coordinates equal to 0.
+    // Note: the null coordinates are counted on the orthogonal form
+    // of the generator system, since the rays of `gs' are only
+    // determined modulo the lineality space of the polyhedron.
+    std::vector<Linear_Expression> rays;
+    Polyhedron::orthogonal_form_rays(gs, rays);
+    for (dimension_type i = rays.size(); i-- > 0; ) {
+      ++num_rays_null_coord[rays[i].num_zeroes(1, space_dim + 1)];
     }
   }
   PPL_ASSERT(OK());
@@ -225,12 +236,13 @@ PPL::BHRZ03_Certificate::compare(const Polyhedron& ph) const {
   }
   // The speculative optimization was not worth:
   // compute information about rays.
+  // Note: the null coordinates are counted on the orthogonal form
+  // of the generator system (see the constructor).
   std::vector<dimension_type> ph_num_rays_null_coord(ph.space_dim, 0);
-  for (Generator_System::const_iterator i = gs.begin(),
-         gs_end = gs.end(); i != gs_end; ++i) {
-    if (i->is_ray()) {
-      ++ph_num_rays_null_coord[i->expression().num_zeroes(1, space_dim + 1)];
-    }
+  std::vector<Linear_Expression> ph_rays;
+  Polyhedron::orthogonal_form_rays(gs, ph_rays);
+  for (dimension_type i = ph_rays.size(); i-- > 0; ) {
+    ++ph_num_rays_null_coord[ph_rays[i].num_zeroes(1, space_dim + 1)];
   }
   // Compare (lexicographically) the two vectors:
   // if ph_num_rays_null_coord < num_rays_null_coord the chain is stabilizing.
